@@ -213,3 +213,231 @@ Fixpoint c15_run_obs (q : queries N) (ops : list (qop N)) (acc : list (qobs N))
       | OutOfFuel => OutOfFuel
       end
   end.
+
+(* the table after inserting vals into the empty table (no removals): used by
+   the driver to start capacity cases at 32768 live entries without paying the
+   quadratic cost of the list model; ProofsSeq.fill_state proves it equal to
+   running the inserts *)
+Definition c15_prefill (vals : list N) : queries N :=
+  mkQ (lenN vals) (lenN vals) (map (@Some N) vals).
+
+(* ======================================================================
+   Part 2: messages, RequestMessage::is_answer, the datagram receive loop,
+   the TC rule of dgram_stream, the stream response-timeout configuration and
+   the event-level stream demultiplexer.
+
+   A message is its header fields and its question section: Some qs when all
+   QDCOUNT questions parse (questions are abstract tokens: equal tokens = equal
+   name (case-insensitively), type and class), None when one does not parse. *)
+
+Record msg : Type := mkMsg {
+  m_id : N; m_qr : bool; m_tc : bool; m_rcode : N;
+  m_qd : N; m_an : N; m_ns : N; m_ar : N;
+  m_qs : option (list N) }.
+
+Record req : Type := mkReq { r_id : N; r_qs : list N }.
+
+Fixpoint list_eqb (a b : list N) : bool :=
+  match a, b with
+  | [], [] => true
+  | x :: a', y :: b' => (x =? y) && list_eqb a' b'
+  | _, _ => false
+  end.
+
+(* net/client/request.rs RequestMessage::is_answer *)
+Definition is_answer (r : req) (a : msg) : bool :=
+  if isans_reject (m_qr a) (m_id a) (r_id r) then false
+  else if isans_hdr_only (m_rcode a) (m_qd a) (m_an a) (m_ns a) (m_ar a) then true
+  else if isans_qd_reject (m_qd a) (lenN (r_qs r)) then false
+  else
+    let e := match m_qs a with Some qs => list_eqb qs (r_qs r) | None => false end in
+    if isans_q_equal then e else negb e.
+
+(* what the property calls "answers that caller's own request" *)
+Definition hdr_only_error (a : msg) : Prop :=
+  m_rcode a <> 0 /\ m_qd a = 0 /\ m_an a = 0 /\ m_ns a = 0 /\ m_ar a = 0.
+Definition answers (r : req) (a : msg) : Prop :=
+  m_qr a = true /\ m_id a = r_id r /\ (hdr_only_error a \/ m_qs a = Some (r_qs r)).
+(* QDCOUNT agrees with the questions that parse *)
+Definition msg_wf (a : msg) : Prop := forall qs, m_qs a = Some qs -> m_qd a = lenN qs.
+
+(* ---- net/client/dgram.rs handle_request_impl ----
+   One attempt: a fresh socket, a fresh random ID, the datagrams that arrive on
+   that socket with their arrival time in ms after the send (ascending). *)
+Inductive pkt : Type := PGarbage | PRecvErr | PMsg (m : msg).
+Inductive afault : Type := FNone | FConnect | FSend | FShortSend.
+Record attempt : Type := mkAtt { a_fault : afault; a_id : N; a_pkts : list (N * pkt) }.
+Definition silent_attempt : attempt := mkAtt FNone 0 [].
+
+Inductive rres : Type := RAnswer (t : N) (m : msg) | RError (t : N) | RTimeout.
+
+(* while deadline > now { match timeout_at(deadline, recv) ... } with the clock
+   relative to the send: deadline = T *)
+Fixpoint recv_loop (T : N) (r : req) (now : N) (pkts : list (N * pkt)) : rres :=
+  if dgram_loop_cond T now then
+    match pkts with
+    | [] => RTimeout
+    | (off, p) :: rest =>
+        if off <=? T then
+          let now' := N.max now off in
+          match p with
+          | PRecvErr => RError now'
+          | PGarbage => recv_loop T r now' rest
+          | PMsg m =>
+              let skip := if dgram_skip_if_not_answer then negb (is_answer r m) else is_answer r m in
+              if skip then recv_loop T r now' rest else RAnswer now' m
+          end
+        else RTimeout
+    end
+  else RTimeout.
+
+(* error classes: 1 connect, 2 send, 3 receive, 4 timeout *)
+Inductive dres : Type := DOk (k t : N) (m : msg) | DErr (e t : N).
+
+(* n attempts left, k = index of this attempt, base = ms elapsed, sends so far *)
+Fixpoint dgram_loop (T : N) (qs : list N) (n : nat) (k base sends : N) (atts : list attempt) : dres * N :=
+  match n with
+  | O => (DErr 4 base, sends)
+  | S n' =>
+      let a := hd silent_attempt atts in
+      match a_fault a with
+      | FConnect => (DErr 1 base, sends)
+      | FSend => (DErr 2 base, sends)
+      | FShortSend => (DErr 2 base, sends + 1)
+      | FNone =>
+          match recv_loop T (mkReq (a_id a) qs) 0 (a_pkts a) with
+          | RAnswer t m => (DOk k (base + t) m, sends + 1)
+          | RError t => (DErr 3 (base + t), sends + 1)
+          | RTimeout => dgram_loop T qs n' (k + 1) (base + T) (sends + 1) (tl atts)
+          end
+      end
+  end.
+
+Definition dgram_run (max_retries T : N) (qs : list N) (atts : list attempt) : dres * N :=
+  dgram_loop T qs (N.to_nat (dgram_attempts max_retries)) 0 0 0 atts.
+
+(* ---- net/client/dgram_stream.rs: UDP first, stream when truncated ---- *)
+Inductive tres : Type := TOk (m : msg) | TErr (e : N).
+Definition ds_result (udp tcp : tres) : tres * bool :=
+  match udp with
+  | TErr e => (TErr e, false)
+  | TOk m =>
+      if (if tc_falls_back_when_set then m_tc m else negb (m_tc m)) then (tcp, true) else (TOk m, false)
+  end.
+
+(* ---- stream::Config response timeouts (ms) ---- *)
+Record scfg : Type := mkCfg { c_resp : N; c_single : N; c_streaming : N }.
+Definition scfg_default : scfg :=
+  mkCfg stream_timeout_default_ms stream_timeout_default_ms stream_timeout_default_ms.
+Definition stream_limit (t : N) : N := defminmax_limit stream_timeout_min_ms stream_timeout_max_ms t.
+Definition set_response_timeout (c : scfg) (t : N) : scfg :=
+  let v := stream_limit t in
+  mkCfg v (if set_rt_assigns_single then v else c_single c)
+          (if set_rt_assigns_streaming then v else c_streaming c).
+Definition set_streaming_response_timeout (c : scfg) (t : N) : scfg :=
+  mkCfg (c_resp c) (c_single c) (stream_limit t).
+(* the timeout Transport::run puts in force when it takes a request *)
+Definition effective_timeout (c : scfg) (is_stream : bool) : N :=
+  if run_selects_timeout_by_kind then (if is_stream then c_streaming c else c_single c) else c_resp c.
+
+(* ---- the stream demultiplexer at event level ----
+   insert_req, demux_reply and error() of stream.rs over the query table.
+   The ID of a request is the index insert returned (hdr.set_id(index)); the
+   entry does not store it. *)
+Record entry : Type := mkEntry { e_caller : N; e_qs : list N; e_multi : bool; e_xfr : N }.
+
+Inductive dlv : Type :=
+| DAnswer (m : msg)     (* Ok(answer) *)
+| DWrong                (* Err(WrongReplyForQuery) *)
+| DError (e : N)        (* any other error *)
+| DEof.                 (* end of a multi-response stream *)
+
+Inductive conn : Type := COpen | CDown (e : N).
+
+Record sstate : Type := mkSt {
+  st_q : queries entry;
+  st_conn : conn;
+  st_sent : list (N * N * list N);        (* caller, ID on the wire, questions *)
+  st_log : list (N * bool * dlv) }.       (* caller, multi?, what it was handed *)
+
+Inductive sevent : Type :=
+| ESubmit (caller : N) (qs : list N) (multi : bool) (unconvertible : bool)
+| EReply (m : msg)
+| EFail (e : N).          (* read error, read timeout or write error *)
+
+(* error numbers: 10 StreamIdleTimeout, 11 StreamTooManyOutstandingQueries,
+   12 StreamLongMessage; EFail carries its own *)
+Definition terminal (multi : bool) (d : dlv) : bool :=
+  match d with
+  | DAnswer _ | DWrong => negb multi
+  | DError _ | DEof => true
+  end.
+
+Section Demux.
+(* check_stream of stream.rs (XFR end detection), left abstract:
+   entry, reply -> (eof, new xfr state, is_answer) *)
+Variable check_stream : entry -> msg -> bool * N * bool.
+Variable idle_zero : bool.     (* status.idle_timeout.is_zero() *)
+
+Definition after_reply (q : queries entry) (c : conn) : conn :=
+  match c with
+  | COpen => if q_is_empty q && idle_zero then CDown 10 else COpen
+  | d => d
+  end.
+
+Definition s_step (s : sstate) (ev : sevent) : outcome sstate :=
+  match ev with
+  | ESubmit c qs multi bad =>
+      match st_conn s with
+      | CDown e => Ok (mkSt (st_q s) (st_conn s) (st_sent s) (st_log s ++ [(c, multi, DError e)]))
+      | COpen =>
+          do (q', oi) <- q_insert (st_q s) (mkEntry c qs multi 0);
+          match oi with
+          | None => Ok (mkSt q' COpen (st_sent s) (st_log s ++ [(c, multi, DError 11)]))
+          | Some idx =>
+              if bad then
+                let '(q'', _) := q_try_remove q' idx in
+                Ok (mkSt q'' COpen (st_sent s) (st_log s ++ [(c, multi, DError 12)]))
+              else Ok (mkSt q' COpen (st_sent s ++ [(c, idx, qs)]) (st_log s))
+          end
+      end
+  | EReply m =>
+      match st_conn s with
+      | CDown _ => Ok s            (* the run loop has ended *)
+      | COpen =>
+          let id := m_id m in
+          match q_try_remove (st_q s) id with
+          | (_, None) => Ok s
+          | (q', Some e) =>
+              if e_multi e then
+                let '(eof, x, isans) := check_stream e m in
+                let log' := st_log s ++ [(e_caller e, true, if isans then DAnswer m else DWrong)] in
+                if eof then
+                  Ok (mkSt q' (after_reply q' COpen) (st_sent s) (log' ++ [(e_caller e, true, DEof)]))
+                else
+                  do q'' <- q_insert_at q' id (mkEntry (e_caller e) (e_qs e) true x);
+                  Ok (mkSt q'' (after_reply q'' COpen) (st_sent s) log')
+              else
+                let d := if is_answer (mkReq id (e_qs e)) m then DAnswer m else DWrong in
+                Ok (mkSt q' (after_reply q' COpen) (st_sent s) (st_log s ++ [(e_caller e, false, d)]))
+          end
+      end
+  | EFail err =>
+      match st_conn s with
+      | CDown _ => Ok s
+      | COpen =>
+          let '(q', l) := q_drain (st_q s) in
+          Ok (mkSt q' (CDown err) (st_sent s)
+                   (st_log s ++ map (fun e => (e_caller e, e_multi e, DError err)) l))
+      end
+  end.
+
+Definition s_init : sstate := mkSt q_new COpen [] [].
+Definition s_run (evs : list sevent) : outcome sstate :=
+  fold_left (fun acc ev => do s <- acc; s_step s ev) evs (Ok s_init).
+End Demux.
+
+(* ---- entry points for the driver ---- *)
+Definition c15_is_answer (r : req) (a : msg) : bool := is_answer r a.
+Definition c15_dgram (max_retries T : N) (qs : list N) (atts : list attempt) : dres * N :=
+  dgram_run max_retries T qs atts.
